@@ -1,0 +1,72 @@
+//go:build verif
+
+// Contracts for gzv (contract-based deductive verification, /verif). Comment-only file.
+package router
+
+// ---------------------------------------------------------------------------------------------
+// C09 router front-end: what is rejected at registration, which tree is asked about which (cleaned) path, and how the
+// answer is turned into dispatch / 405 + Allow / 404. srch(t, p) is the answer of tree t for path p (core/search contract).
+// ---------------------------------------------------------------------------------------------
+//@ spec srch(t *search.Tree, p string) bool = search.Hit(t, p)
+//@ spec treesOK(pr *patRouter) bool = pr != nil && pr.trees != nil && forall(m.(string), implies(inDom(pr.trees, m), search.TreeOK(pr.trees[m])))
+
+// the seven methods of the statement, nothing else
+//@ func validMethod
+//@   property C09
+//@   pure
+//@   ensures result == (method == "DELETE" || method == "GET" || method == "HEAD" || method == "OPTIONS" || method == "PATCH" || method == "POST" || method == "PUT")
+//@   modifies nothing
+
+// Handle: an unsupported method or a pattern not starting with '/' is rejected before any tree is touched; otherwise the
+// cleaned pattern and the handler go, once, to the tree of exactly that method (created on first use), and the tree's
+// verdict (duplicate route) is the result.
+//@ func (pr *patRouter) Handle
+//@   property C09
+//@   requires treesOK(pr) && handler != nil
+//@   ensures  implies(!validMethod(method), result == ErrInvalidMethod && addCalls == old(addCalls))
+//@   ensures  implies(validMethod(method) && (len(reqPath) == 0 || reqPath[0] != '/'), result == ErrInvalidPath && addCalls == old(addCalls))
+//@   ensures  implies(validMethod(method) && len(reqPath) > 0 && reqPath[0] == '/',
+//@              addCalls == old(addCalls) + 1 && inDom(pr.trees, method) && addNode == search.RootOf(pr.trees[method]) && addRoute == path.Clean(reqPath)[1:] && addItem == handler && (result == nil) == (addErr == nil))
+//@   ensures  implies(old(inDom(pr.trees, method)), pr.trees[method] == old(pr.trees[method]))
+//@   ensures  forall(m.(string), implies(m != method, inDom(pr.trees, m) == old(inDom(pr.trees, m)) && pr.trees[m] == old(pr.trees[m])))
+//@   ensures  treesOK(pr)
+
+// methodsAllowed: ok iff some *other* method's tree matches the path; the names joined are exactly those methods.
+//@ ghost var allowSet map[string]bool
+//@ func (pr *patRouter) methodsAllowed
+//@   property C09
+//@   results s, ok
+//@   requires treesOK(pr)
+//@   ghost at entry: allowSet = nokeys()
+//@   ghost at before append#0: allowSet[treeMethod] = true
+//@   ensures  forall(m.(string), allowSet[m] == (inDom(pr.trees, m) && m != method && srch(pr.trees[m], path)))
+//@   ensures  ok == exists(m.(string), inDom(pr.trees, m) && m != method && srch(pr.trees[m], path))
+//@   modifies allowSet
+//@   allocates
+//@   loop 0: modifies allowSet
+//@   loop 0: invariant forall(m.(string), allowSet[m] == (seen[m] && m != method && srch(pr.trees[m], path)))
+//@   loop 0: invariant forall(i.(int), implies(0 <= i && i < len(allows), allowSet[allows[i]]))
+//@   loop 0: invariant (len(allows) > 0) == exists(m.(string), allowSet[m])
+
+//@ func (pr *patRouter) handleNotFound
+//@   property C09
+//@   ensures implies(old(pr.notFound) != nil, served == old(served) + 1 && servedW == w && servedR == r)
+//@   ensures implies(old(pr.notFound) == nil, served == old(served) && hdrCode[w] == 404)
+
+// ServeHTTP: the tree of exactly the request's method is asked about exactly the cleaned path; on a hit the handler found
+// runs once, with the request itself when the route binds no variables and otherwise with a request carrying exactly the
+// bound variables; otherwise the other methods' trees are asked about the same cleaned path: none matches => not found,
+// some match => 405 with the joined names in Allow (or the custom not-allowed handler).
+//@ func (pr *patRouter) ServeHTTP
+//@   property C09
+//@   requires treesOK(pr) && r != nil && r.URL != nil && w != nil
+//@   let p = path.Clean(r.URL.Path)
+//@   let meth = r.Method
+//@   let r0 = r
+//@   call Search#0: assert arg_recv == pr.trees[meth] && arg_route == p
+//@   call methodsAllowed#0: assert arg_method == meth && arg_path == p
+//@   call ServeHTTP#0: assert arg_recv == search.HitItem(pr.trees[meth], p)
+//@   call ServeHTTP#0: assert ite(len(result.Params) > 0, pvBase[arg_r] == r0 && pvVars[arg_r] == result.Params, arg_r == r0)
+//@   call handleNotFound#0: assert !(inDom(pr.trees, meth) && srch(pr.trees[meth], p)) && !exists(m.(string), inDom(pr.trees, m) && m != meth && srch(pr.trees[m], p))
+//@   call WriteHeader#0: assert arg_statusCode == 405 && hdrVal[hdrObj[w]]["Allow"] == allows
+//@   ensures implies(old(inDom(pr.trees, meth) && srch(pr.trees[meth], p)), served == old(served) + 1 && servedW == w)
